@@ -94,43 +94,48 @@ def record_one(job):
     with warnings.catch_warnings():
         warnings.simplefilter("ignore")
         for _ in range(nev if len(OPS[model]) > 3 else 5):
-            op = OPS[model][rng.randint(len(OPS[model]))]
-            v = pick_value(rng, model, op)
-            e = {"op": op, "arg": v if isinstance(v, (bool, str)) else fr(v)}
-            fe = dict(e, op=op)
-            if op == "Plot":  # argument: does the curve start at distance 0 ?
-                dd = np.concatenate(([0.0] if v else [], 10.0 ** np.linspace(-2, 3, 11)))
-                fe["out"] = {"val": "ok"}.get(c13.outcome_of(lambda: c13.plot_call(o, dd))[0], "raise")
-            else:
-                fe["out"] = c13.apply_setter(model, o, dict(op=op, arg=({"v": fr(v)} if op == "SetFc" else e["arg"])))[1]
-            pr = c13.project(model, o)
-            post = {"pol": pr["pol"] if isinstance(pr["pol"], bool) else str(pr["pol"]),
-                    "shadow": pr["shadow"] if isinstance(pr["shadow"], bool) else str(pr["shadow"])}
-            for k, f in (("n", "n"), ("fcv", "fc"), ("hbs", "hbs"), ("hms", "hms"), ("sigma", "sigma")):
-                if k in pr:
-                    post[f] = back_to_rat(pr[k])
-            if "area" in pr:
-                post["area"] = str(pr["area"])
-            fe["post"] = post
-            walls = (0, 2) if model == "metis" else (0,)
             try:
-                if o.use_shadow_bool is True and o.sigma_shadow > 0:
-                    res = c13.shadow_predicates(model, o, walls=walls, nseeds=3, base_seed=seed % 1000 + len(ev))
-                    fe["preds"] = {k: res[k] is None for k in res}
+                op = OPS[model][rng.randint(len(OPS[model]))]
+                v = pick_value(rng, model, op)
+                e = {"op": op, "arg": v if isinstance(v, (bool, str)) else fr(v)}
+                fe = dict(e, op=op)
+                if op == "Plot":  # argument: does the curve start at distance 0 ?
+                    dd = np.concatenate(([0.0] if v else [], 10.0 ** np.linspace(-2, 3, 11)))
+                    fe["out"] = {"val": "ok"}.get(c13.outcome_of(lambda: c13.plot_call(o, dd))[0], "raise")
+                else:
+                    fe["out"] = c13.apply_setter(model, o, dict(op=op, arg=({"v": fr(v)} if op == "SetFc" else e["arg"])))[1]
+                pr = c13.project(model, o)
+                post = {"pol": pr["pol"] if isinstance(pr["pol"], bool) else str(pr["pol"]),
+                        "shadow": pr["shadow"] if isinstance(pr["shadow"], bool) else str(pr["shadow"])}
+                for k, f in (("n", "n"), ("fcv", "fc"), ("hbs", "hbs"), ("hms", "hms"), ("sigma", "sigma")):
+                    if k in pr:
+                        post[f] = back_to_rat(pr[k])
+                if "area" in pr:
+                    post["area"] = str(pr["area"])
+                fe["post"] = post
+                walls = (0, 2) if model == "metis" else (0,)
+                try:
+                    if o.use_shadow_bool is True and o.sigma_shadow > 0:
+                        res = c13.shadow_predicates(model, o, walls=walls, nseeds=3, base_seed=seed % 1000 + len(ev))
+                        fe["preds"] = {k: res[k] is None for k in res}
+                        fe["why"] = {k: v for k, v in res.items() if v}
+                        ev.append(fe)
+                        continue
+                    res = c13.rel_predicates(model, o, walls=walls, kmin=-3, kmax=3, per_decade=per_decade,
+                                             inverse=model in ("general", "3gpp1", "freespace"),
+                                             params=c13.public_params(model, o, given))
+                    names = ["Monotone", "LinearIsDb", "InUnit", "PolicyArrayScalar", "QueryPure", "DocValue", "FriisClose"] + (
+                        ["InverseId"] if model in ("general", "3gpp1", "freespace") else [])
+                    fe["preds"] = {k: res[k] is None for k in names}
                     fe["why"] = {k: v for k, v in res.items() if v}
-                    ev.append(fe)
-                    continue
-                res = c13.rel_predicates(model, o, walls=walls, kmin=-3, kmax=3, per_decade=per_decade,
-                                         inverse=model in ("general", "3gpp1", "freespace"),
-                                         params=c13.public_params(model, o, given))
-                names = ["Monotone", "LinearIsDb", "InUnit", "PolicyArrayScalar", "QueryPure", "DocValue", "FriisClose"] + (
-                    ["InverseId"] if model in ("general", "3gpp1", "freespace") else [])
-                fe["preds"] = {k: res[k] is None for k in names}
-                fe["why"] = {k: v for k, v in res.items() if v}
-            except Exception as ex:  # a query that breaks on an admissible state
-                fe["preds"] = {"Monotone": False}
-                fe["why"] = {"Monotone": f"query raised {type(ex).__name__}: {ex}"}
-            ev.append(fe)
+                except Exception as ex:  # a query that breaks on an admissible state
+                    fe["preds"] = {"Monotone": False}
+                    fe["why"] = {"Monotone": f"query raised {type(ex).__name__}: {ex}"}
+                ev.append(fe)
+            except Exception as ex:  # noqa: comparisons are total - an unforeseen exception of the code under test is logged, not fatal
+                ev.append({"op": "SetPol", "arg": bool(o.handle_small_distances_bool is True), "out": "ok",
+                           "post": {}, "preds": {"NoUnexpectedException": False},
+                           "why": {"NoUnexpectedException": f"{type(ex).__name__}: {ex}"}})
     return {"model": model, "seed": seed, "init": init, "ev": ev}
 
 
